@@ -448,7 +448,10 @@ class Norm:
             if folded is not UNKNOWN and not isinstance(folded, (dict, list)):
                 return ("const", folded), ANY
             return ("unk", unparse(node)), ANY
-        return meth(node, ctx)
+        t, ty = meth(node, ctx)
+        if t[0] == "xcall" and t[1] == "str" and t[2] is None and len(t[3]) == 1 and not t[4] and isinstance(node, ast.Call) and isinstance(node.func, ast.Name):
+            return ("fstr", (t[3][0],)), ("prim", "str")  # str(x) and f"{x}" are one term
+        return t, ty
 
     def term(self, node: ast.AST, ctx: Ctx) -> Term:
         return self.eval(node, ctx)[0]
